@@ -30,7 +30,9 @@ func init() {
 		"(R3) no unbounded wait (channel send/receive, select without default, Wait) while a mutex is held; "+
 		"(R4) field-guard consistency: a field of a mutex-carrying struct that is written outside constructors is accessed with that struct's mutex held at every access; "+
 		"(R5) a goroutine/errgroup body never assigns to, or map-updates, a variable captured by reference without a lock when several instances run (created in a loop) or the creator touches it before the join; per-index element slots are accepted; "+
-		"(R6) inside a mutex-carrying type whose channels are closed under the mutex, every send/close on a channel happens under it (send-vs-close exclusion).",
+		"(R6) inside a mutex-carrying type whose channels are closed under the mutex, every send/close on a channel happens under it (send-vs-close exclusion); "+
+		"(R7) handles derived from one another that share guarded state share the mutex object; "+
+		"(R8) a guarded field, or the slice/map it holds (including in-place sorts and element stores done by callees), is modified only with the mutex held exclusively.",
 		func(c *Ctx) {
 			runLockRules(c, "C20", c20Scope, true)
 			// (R7) handles derived from one another that share guarded state share the lock object
@@ -207,6 +209,13 @@ func runLockRulesP(c *Ctx, prop string, fnPred func(*ssa.Function) bool, ownerPr
 			}
 			nGuard++
 			bad := 0
+			// R8: a write holds the lock exclusively — a shared (read) lock does not exclude other readers
+			for _, a := range as {
+				if a.Write && a.Locked && !a.Fresh && a.Mode == 'R' {
+					bad++
+					c.Require(prop+".R8 write-under-exclusive-lock", owner+"."+f+" write in "+FuncKey(a.Fn), p.InstrPos(a.Instr), "a guarded field (or the slice/map it holds) is modified only with "+owner+"."+mf+" held exclusively, never under RLock", false, "held in read mode only")
+				}
+			}
 			for _, a := range as {
 				if a.Locked || a.Fresh {
 					continue
